@@ -659,7 +659,7 @@ func (vc *VC) evalSpecCall(env *Env, x *SCall) Val {
 	inner := &Env{vc: vc, st: env.st, old: env.old, vars: map[string]Val{}, bound: map[string]Val{}, fn: env.fn, depth: env.depth + 1}
 	for i, p := range pf.Params {
 		a := arg(i)
-		if t := vc.resolveType(env, p.Type); t != nil && a.Typ == untypedInt {
+		if t := vc.resolveTypeAt(env, pf.File, p.Type); t != nil && a.Typ == untypedInt {
 			a.Typ = t
 		} else if t != nil && !isUntypedNil(a.Typ) {
 			a.Typ = t
@@ -670,7 +670,7 @@ func (vc *VC) evalSpecCall(env *Env, x *SCall) Val {
 }
 
 func (vc *VC) callAbstract(env *Env, pf *PureFunc, x *SCall) Val {
-	rt := vc.resolveType(env, pf.Result)
+	rt := vc.resolveTypeAt(env, pf.File, pf.Result)
 	if rt == nil {
 		return vc.specErr("abstract %s: unknown result type %s", pf.Name, pf.Result)
 	}
@@ -678,7 +678,7 @@ func (vc *VC) callAbstract(env *Env, pf *PureFunc, x *SCall) Val {
 	var sorts []string
 	for i, p := range pf.Params {
 		a := vc.evalSpec(env, x.Args[i])
-		t := vc.resolveType(env, p.Type)
+		t := vc.resolveTypeAt(env, pf.File, p.Type)
 		if t == nil {
 			return vc.specErr("abstract %s: unknown param type %s", pf.Name, p.Type)
 		}
